@@ -66,6 +66,11 @@ class Coalesce(Evaluatable[A]):
                 return getattr(member, method)(options)
             except EvaluationError as e:
                 err = e
+            except Exception as e:
+                # User code run while validating (a bind function, a case predicate) is not
+                # wrapped by the runtime: the member cannot be evaluated, try the next one.
+                err = EvaluationError(f"Error during {method} of {member!r}", member)
+                err.__cause__ = e
 
         raise err  # type: ignore
 
